@@ -132,6 +132,16 @@ pub fn templates() -> Vec<(String, Module)> {
         t(&format!("host-{f}"), vec![sg("r", native(f, vec![s("fresh argument")])), sg("j", s("junk")), log2("r", rv("r"))], vec![]);
         t(&format!("host-{f}-twice"), vec![sv("a", native(f, vec![s("first")])), sv("bb", native(f, vec![rv("a")])), log2("a", rv("a")), log2("b", rv("bb"))], vec![]);
     }
+    // a host function storing fresh objects in a table of the script, across the growth steps
+    for f in ["push_fresh", "insert_fresh"] {
+        t(
+            &format!("host-{f}-14-times"),
+            vec![sg("gt", C::CreateTable), C::Repeat { n: b(int(14)), i: None, body: b(comp(vec![sv("got", native(f, vec![rv("gt")])), log2("got", rv("got"))])) }, log2("gt", rv("gt"))],
+            vec![],
+        );
+    }
+    // one object as key and as value
+    t("same-object-key-and-value", vec![sv("sk", s("key and value")), sv("tt", C::CreateTable), C::SetProperty(b(rv("sk")), b(rv("tt")), b(rv("sk"))), sg("j", s("junk")), log2("tt", rv("tt")), C::SetProperty(b(rv("tt")), b(rv("tt")), b(int(1))), sg("j2", s("junk"))], vec![]);
     // library functions backed by natives, with allocating key functions
     let strings = vec![sv("t", C::CreateTable), C::Append(b(s("bbb")), b(rv("t"))), C::Append(b(s("a")), b(rv("t"))), C::Append(b(s("cc")), b(rv("t")))];
     for f in ["min", "max", "sorted", "to_array"] {
@@ -240,11 +250,31 @@ fn n_mk_chain(vm: &mut Vm<Host>, x: Value) -> HR {
     Ok(Value::Object(t.into_inner()))
 }
 
+/// a host function appending / inserting fresh, unguarded objects into a table of the script
+fn n_push_fresh(vm: &mut Vm<Host>, t: Value) -> HR {
+    let Value::Object(mut o) = t else { return Err(ExecutionErrorPayload::invalid_argument("table expected")) };
+    let st = vm.init_string("appended by the host")?.into_inner();
+    let table = unsafe { o.as_mut().as_table_mut().ok_or_else(|| ExecutionErrorPayload::invalid_argument("table expected"))? };
+    table.append(Value::Object(st))?;
+    Ok(Value::Object(st))
+}
+
+fn n_insert_fresh(vm: &mut Vm<Host>, t: Value) -> HR {
+    let Value::Object(mut o) = t else { return Err(ExecutionErrorPayload::invalid_argument("table expected")) };
+    let n = unsafe { o.as_ref().as_table().map(|t| t.len()).unwrap_or(0) };
+    let key = vm.init_string(&format!("host key {n}"))?.into_inner();
+    let table = unsafe { o.as_mut().as_table_mut().ok_or_else(|| ExecutionErrorPayload::invalid_argument("table expected"))? };
+    table.insert(Value::Object(key), Value::Object(key))?;
+    Ok(Value::Object(key))
+}
+
 fn register_api_natives(vm: &mut Vm<Host>) {
     use cao_lang::traits::into_f1;
     vm.register_native_function("mk_owned", into_f1(n_mk_owned)).unwrap();
     vm.register_native_function("mk_guarded", into_f1(n_mk_guarded)).unwrap();
     vm.register_native_function("mk_chain", into_f1(n_mk_chain)).unwrap();
+    vm.register_native_function("push_fresh", into_f1(n_push_fresh)).unwrap();
+    vm.register_native_function("insert_fresh", into_f1(n_insert_fresh)).unwrap();
 }
 
 // ---- one execution under a schedule -------------------------------------------------------------------
@@ -390,6 +420,11 @@ fn run_sched(m: &Module, prog: &CaoCompiledProgram, sched: Rc<dyn Fn(u64) -> boo
     let mut out = SchedRun { result: String::new(), globals: BTreeMap::new(), log: vec![], findings: vec![], allocs: verif::alloc_seq(), gcs: verif::gc_count(), panic: None };
     match r {
         Ok(r) => {
+            // no guard can be alive once the run has returned
+            let guarded = verif::objects(&vm.runtime_data).iter().filter(|o| o.marker == 3 && !o.dead).count();
+            if guarded > 0 && audit.borrow().findings.is_empty() {
+                audit.borrow_mut().findings.push(("guarded-after-run".to_string(), format!("{guarded} object(s) still carry the guard marker after the run returned")));
+            }
             // final audit (the post hook does not fire for the instruction that raised an error)
             if verif::gc_count() > 0 {
                 if let Some((role, kind)) = heap_audit(&vm.runtime_data).filter(|_| audit.borrow().findings.is_empty()) {
